@@ -222,6 +222,9 @@ class _Clock:
         return 1.7e9 + self.t
 
 
+REQ_TS_MARK = b"\xfeRQTS\xfd\xfc\xfb"      # placeholder replaced by the request's own timestamp bytes
+
+
 def impl_discover(im, my_name, cfg_wg, wf, cf, req_id, replies, responders=()):
     """Run the real discover_peer_contexts (which runs the real ping_qmi_contexts) on scripted
     stand-ins.  replies: datagrams (bytes, addr) waiting on the socket after the request went out;
@@ -247,7 +250,9 @@ def impl_discover(im, my_name, cfg_wg, wf, cf, req_id, replies, responders=()):
                 except Exception:  # noqa
                     pass
                 got += [(s[0], ("10.0.0.%d" % (len(got) + 1), 35999)) for s in rs.sent]
-            state["replies"] = got + state["replies"]
+            # replies may echo the real request's timestamp bit for bit (marker substituted here)
+            req_ts8 = data[14:22] if len(data) >= 22 else b"\0" * 8
+            state["replies"] = got + [(b.replace(REQ_TS_MARK, req_ts8), a) for (b, a) in state["replies"]]
             self.inq.extend(state["replies"])
 
     def mk_socket(*a, **k):
@@ -1023,7 +1028,9 @@ def gen_discover(rng):
         addr = ("192.168.%d.%d" % (rng.randrange(256), rng.randrange(256)), rng.randrange(1, 65536))
         name = (my if rng.random() < 0.3 else rng.choice([gen_name(rng), my + "x", my[:-1], my.swapcase(), my + "é"])).encode()[:64]
         rid = req_id if rng.random() < 0.7 else rng.choice([req_id ^ 1, (req_id + 1) % 2 ** 64, 0, rng.randrange(2 ** 64)])
-        good = mk_resp(rand_id(rng), rand_ts(rng), rid, rand_ts(rng), rng.randrange(1, 2 ** 22), name,
+        # stray answers to SOMEBODY ELSE's request issued in the same clock tick echo our timestamp but not our id
+        rts = REQ_TS_MARK if rng.random() < 0.5 else rand_ts(rng)
+        good = mk_resp(rand_id(rng), rand_ts(rng), rid, rts, rng.randrange(1, 2 ** 22), name,
                        gen_name(rng).encode(), rng.choice([-1, 0, 65535, rng.randrange(65536)]))
         if r < 0.65:
             b = good
